@@ -2,7 +2,7 @@
 # Sets up / refreshes a private copy of /verif (at its committed HEAD) and of /repo for trying patches without
 # disturbing checks that run in /verif against /repo:   tools/mut_env.sh   then   tools/try_patch2.sh <patch> <tier> <Cnn>...
 set -e
-V=/tmp/v2; R=/tmp/mut/repo2
+V=${V:-/tmp/v2}; R=${R:-/tmp/mut/repo2}
 if [ ! -d $R ]; then git -C /repo worktree add --detach $R HEAD -q; fi
 git -C $R checkout -q --detach $(git -C /repo rev-parse HEAD); git -C $R checkout -q -- .
 if [ ! -d $V ]; then git -C /verif worktree add --detach $V HEAD -q; fi
